@@ -282,10 +282,14 @@ class Optic:
         if self.aperture.ap_type == 'EPD':
             self.aperture.value *= scale_factor
 
-        # Scale physical apertures
+        # Scale physical apertures (an aperture object shared by several
+        # surfaces is scaled once)
+        scaled = []
         for surface in self.surface_group.surfaces:
-            if surface.aperture is not None:
+            if surface.aperture is not None and \
+                    not any(surface.aperture is a for a in scaled):
                 surface.aperture.scale(scale_factor)
+                scaled.append(surface.aperture)
 
     def draw(self, fields='all', wavelengths='primary', num_rays=3,
              figsize=(10, 4), xlim=None, ylim=None):
